@@ -34,7 +34,13 @@ impl WriteSource for pr::Expr {
             opt.unbound_expr = false;
         }
 
-        if !needs_parenthesis(self, &opt) {
+        let needs_parenthesis = needs_parenthesis(self, &opt);
+
+        // the position of this expression in its parent says nothing about the operands of
+        // this expression: a binary expression sets the position of its own operands
+        opt.binary_position = super::Position::Unspecified;
+
+        if !needs_parenthesis {
             r += &self.kind.write(opt.clone())?;
         } else {
             let value = self.kind.write_between("(", ")", opt.clone());
